@@ -747,11 +747,12 @@ func (s Source) MarshalJSON() ([]byte, error) {
 	JSONWrite(&b, '{')
 	if len(s.MediaType) > 0 {
 		if v, err := s.MediaType.MarshalJSON(); err == nil && len(v) > 0 {
-			empty = !JSONWriteProp(&b, "mediaType", v)
+			empty = !JSONWriteProp(&b, "mediaType", v) && empty
 		}
 	}
 	if len(s.Content) > 0 {
-		empty = !JSONWriteNaturalLanguageProp(&b, "content", s.Content)
+		// (content that writes nothing -- a single empty text -- must not take the media type with it)
+		empty = !JSONWriteNaturalLanguageProp(&b, "content", s.Content) && empty
 	}
 	if !empty {
 		JSONWrite(&b, '}')
